@@ -120,14 +120,14 @@ func contract(a, b ref.Arr, axesA, axesB []int) ref.Arr {
 }
 
 type laCase struct {
-	op         string
-	d          ref.DT
-	sa, sb     []int
-	la, lb     string
-	mode       string // safe reuse incr reuse+incr
-	vs         string
-	axA, axB   []int
-	api        string
+	op       string
+	d        ref.DT
+	sa, sb   []int
+	la, lb   string
+	mode     string // safe reuse incr reuse+incr
+	vs       string
+	axA, axB []int
+	api      string
 }
 
 func (c laCase) id() string {
